@@ -4,7 +4,7 @@ from __future__ import annotations
 import ast
 from typing import Any, Dict, List, Optional, Sequence, Set, Tuple
 
-from ..collect import callee_is
+from ..collect import callee_is, default_inline as _default_inline
 from ..common import ast_text_parts, calls_in, construct, where
 from ..flow import ANY_BASE, ANY_EXC, FALSE, NONE, TRUE, Client, Interp, State, Value, contains, show
 from ..fold import Folder, NotConst
@@ -62,7 +62,7 @@ class AsgiEmit(Client):
             return False
         if fi.module.name in ("baize.asgi.responses", "baize.asgi.middleware", "baize.asgi.helper"):
             return True
-        return False
+        return _default_inline(fi) and fi.module.name.startswith("baize.")  # private helpers / holders of the shared mixins
 
     def call_raises(self, interp, callee, node, st):
         if callee[0] == "builtin" and callee[1] in PURE:
@@ -263,7 +263,9 @@ class WsgiEmit(Client):
     def want_inline(self, fi, interp, node):
         if fi.name == "__init__":
             return False
-        return fi.module.name in ("baize.wsgi.responses", "baize.wsgi.middleware")
+        if fi.module.name in ("baize.wsgi.responses", "baize.wsgi.middleware"):
+            return True
+        return _default_inline(fi) and fi.module.name.startswith("baize.")  # private helpers / holders of the shared mixins
 
     def call_raises(self, interp, callee, node, st):
         if callee[0] == "builtin" and callee[1] in PURE:
@@ -470,36 +472,51 @@ def check_helpers(p: Program, rep: Report) -> None:
         if fn is None:
             raise AnalysisError(f"baize.asgi.helper.{name} vanished")
         rep.analysed(fn.fq)
-        dicts = [n for n in ast.walk(fn.node) if isinstance(n, ast.Dict)]
+        # decided on the paths of the helper (private helpers inlined, **kwargs / dict spreads merged): every returning path
+        # performs exactly one send() of a dict display with the literal type and the required keys
+        from ..collect import run_paths as _run_paths
+
+        try:
+            hpaths, _hc, _hi = _run_paths(p, fn, None)
+        except Exception as e_:
+            rep.undecide("R5.1", f"{name} is not analysable ({e_})")
+            continue
+        rep.cfg_paths += len(hpaths)
         good = False
-        for d in dicts:
-            ks = {k.value: v for k, v in zip(d.keys, d.values) if isinstance(k, ast.Constant)}
-            if isinstance(ks.get("type"), ast.Constant) and ks["type"].value == typ and keys <= set(ks):
-                good = True
-                if name == "send_http_body":
-                    mb = ks["more_body"]
-                    if not (isinstance(mb, ast.Name) and mb.id == "more_body"):
-                        rep.violation("R5.1", construct(fn, d), where(fn, d), "send_http_body does not forward its more_body argument")
-                    dflt = {a.arg: d_ for a, d_ in zip(fn.node.args.kwonlyargs, fn.node.args.kw_defaults)}
-                    d0 = dflt.get("more_body")
-                    if d0 is None:
-                        pos = fn.node.args.args
-                        dd = fn.node.args.defaults
-                        m = {a.arg: x for a, x in zip(pos[len(pos) - len(dd):], dd)}
-                        d0 = m.get("more_body")
-                    if not (isinstance(d0, ast.Constant) and d0.value is False):
-                        rep.violation("R5.1", construct(fn, text="more_body default"), where(fn), "send_http_body's more_body default is not False: every plain final body event would keep the response open")
-                if name == "send_http_start":
-                    sv = ks["status"]
-                    if not (isinstance(sv, ast.Name) and sv.id in fn.params):
-                        rep.violation("R5.1", construct(fn, d), where(fn, d), "send_http_start does not forward its status argument")
+        sparam = fn.params[0] if fn.params else "send"
+        for pa in hpaths:
+            if pa.exit != "return":
+                continue
+            sends = [e for e in pa.events if e.kind == "call" and e.a == ("param", sparam)]
+            if len(sends) != 1:
+                rep.violation("R5.1", construct(fn, text=f"{len(sends)} send calls"), where(fn), f"{name} calls send() {len(sends)} times (exactly one event per helper call expected)")
+                continue
+            m = sends[0].b[0] if sends[0].b else None
+            if m is None or m[0] != "dict" or any(k is None or k[0] != "const" for k, _v in m[1]):
+                rep.undecide("R5.1", f"{name}: the event handed to send() is not a dict display with constant keys ({show(m)[:60] if m else 'nothing'})")
+                continue
+            ks = {k[1]: v for k, v in m[1]}
+            if ks.get("type") != ("const", typ) or not keys <= set(ks):
+                rep.violation("R5.1", construct(fn, text="event dict"), where(fn), f"{name} no longer builds a {typ!r} event with keys {sorted(keys)}")
+                continue
+            good = True
+            if name == "send_http_body" and ks["more_body"] != ("param", "more_body"):
+                rep.violation("R5.1", construct(fn, text="more_body not forwarded"), where(fn), "send_http_body does not forward its more_body argument")
+            if name == "send_http_start" and not (ks["status"][0] == "param" and ks["status"][1] in fn.params):
+                rep.violation("R5.1", construct(fn, text="status not forwarded"), where(fn), "send_http_start does not forward its status argument")
+        if name == "send_http_body":
+            dflt = {a.arg: d_ for a, d_ in zip(fn.node.args.kwonlyargs, fn.node.args.kw_defaults)}
+            d0 = dflt.get("more_body")
+            if d0 is None:
+                pos = fn.node.args.args
+                dd = fn.node.args.defaults
+                d0 = {a.arg: x for a, x in zip(pos[len(pos) - len(dd):], dd)}.get("more_body")
+            if not (isinstance(d0, ast.Constant) and d0.value is False):
+                rep.violation("R5.1", construct(fn, text="more_body default"), where(fn), "send_http_body's more_body default is not False: every plain final body event would keep the response open")
         if good:
             rep.ok("R5.1", f"{name} builds the {typ!r} event with keys {sorted(keys)}")
-        else:
+        elif not any(v.construct.startswith(construct(fn, text="")[:len(fn.fq)]) for v in rep.violations):
             rep.violation("R5.1", construct(fn, text="event dict"), where(fn), f"{name} no longer builds a {typ!r} event with keys {sorted(keys)}")
-        sends = [c for c in calls_in(fn) if isinstance(c.func, ast.Name) and c.func.id == "send"]
-        if len(sends) != 1:
-            rep.violation("R5.1", construct(fn, text=f"{len(sends)} send calls"), where(fn), f"{name} calls send() {len(sends)} times (exactly one event per helper call expected)")
     # who may emit: only response classes / helper / websocket / middleware define code that calls send()
     allowed = {"baize.asgi.responses", "baize.asgi.helper", "baize.asgi.websocket", "baize.asgi.middleware"}
     for fn in p.all_functions():
